@@ -193,12 +193,13 @@ def run_hyp_shard(sub, tier, examples, seed, ctx, shrink_cap_s=45.0, max_size=No
         test()
     except Violation:
         pass
-    except hypothesis.errors.Flaky:
-        pass
-    except hypothesis.errors.FlakyFailure:
-        pass
-    except BaseExceptionGroup:
-        pass
+    except (KeyboardInterrupt, SystemExit):
+        raise
+    except BaseException:
+        # Flaky / shrinker-internal errors after a failure has been recorded are not our concern:
+        # the smallest failing case seen so far is already in ctx.failures.
+        if not ctx.failures:
+            raise
 
 
 def run_sweep_shard(sub, spec, ctx, max_failures=3):
